@@ -1,4 +1,6 @@
 /* Contracts for libscpi/src/ieee488.c register functions (C11, C12, C01). */
+#ifndef VERIF_REGS_H
+#define VERIF_REGS_H
 #include "common.h"
 
 /* written from the statements of C11/C12:
@@ -9,47 +11,69 @@
  *    register, and the status byte changes; in the status byte only ESB/OPS/QES/MSS may change;
  *  - the SRQ callback is invoked with the new status byte when MSS rises 0->1, and only with
  *    MSS set (the latter is control_contract's precondition, asserted at the call).
- */
-#define IS_COND(n) ((n) == SCPI_REG_OPERC || (n) == SCPI_REG_QUESC)
-#define EVENT_OF(n) ((n) == SCPI_REG_OPERC ? SCPI_REG_OPER : SCPI_REG_QUES)
-#define WRITABLE(n) ((n) == SCPI_REG_SRE || (n) == SCPI_REG_ESR || (n) == SCPI_REG_ESE || (n) == SCPI_REG_OPER \
-    || (n) == SCPI_REG_OPERE || (n) == SCPI_REG_OPERC || (n) == SCPI_REG_QUES || (n) == SCPI_REG_QUESE || (n) == SCPI_REG_QUESC)
+ * A direct write to the status byte (used by the library only for the QMA bit) stores the
+ * value and recomputes MSS; it keeps coherence iff it leaves the three summary bits alone. */
+#define REGS_ALL(c) (c)->registers[0], (c)->registers[1], (c)->registers[2], (c)->registers[3], (c)->registers[4], (c)->registers[5], (c)->registers[6], (c)->registers[7], (c)->registers[8], (c)->registers[9]
 #define UNCH(c, n) (R(c, n) == OLD(R(c, n)))
-#define STB_SUMMARY (STB_ESR | STB_OPS | STB_QES | STB_SRQ)
+#define STB_SUM3 (STB_ESR | STB_OPS | STB_QES)
+#define STB_SUMMARY (STB_SUM3 | STB_SRQ)
 
 #define CTX_REGS_PRE(c) \
     (__CPROVER_is_fresh((c), sizeof(*(c))) && ((c)->interface == NULL || \
       (__CPROVER_is_fresh((c)->interface, sizeof(*(c)->interface)) && \
        ((c)->interface->control == NULL || __CPROVER_obeys_contract((c)->interface->control, control_contract)) && \
        ((c)->interface->error == NULL || __CPROVER_obeys_contract((c)->interface->error, error_contract)))))
+#define HAS_CONTROL(c) ((c)->interface != NULL && (c)->interface->control != NULL)
+
+#define REGSET_CLAUSES(context, name, VAL) \
+__CPROVER_requires(CTX_REGS_PRE(context)) \
+__CPROVER_requires(ENUM_OK(name)) \
+__CPROVER_requires(COH_REGS(context)) \
+__CPROVER_requires(gh_srq_n >= 0 && gh_srq_n < 1000) \
+__CPROVER_assigns(REGS_ALL(context), GHOST_SRQ) \
+/* out of range: nothing happens */ \
+__CPROVER_ensures(name >= SCPI_REG_COUNT ==> (UNCH(context, SCPI_REG_STB) && UNCH(context, SCPI_REG_SRE) && UNCH(context, SCPI_REG_ESR) && UNCH(context, SCPI_REG_ESE) \
+    && UNCH(context, SCPI_REG_OPER) && UNCH(context, SCPI_REG_OPERE) && UNCH(context, SCPI_REG_OPERC) && UNCH(context, SCPI_REG_QUES) && UNCH(context, SCPI_REG_QUESE) && UNCH(context, SCPI_REG_QUESC) && gh_srq_n == OLD(gh_srq_n))) \
+/* C11 */ \
+__CPROVER_ensures((name != SCPI_REG_STB || ((VAL) & STB_SUM3) == (OLD(R(context, SCPI_REG_STB)) & STB_SUM3)) ==> COH_REGS(context)) \
+__CPROVER_ensures(BITEQ(R(context, SCPI_REG_STB), STB_SRQ, R(context, SCPI_REG_STB) & ~STB_SRQ & R(context, SCPI_REG_SRE))) \
+/* written register holds the value */ \
+__CPROVER_ensures((name < SCPI_REG_COUNT && name != SCPI_REG_STB) ==> R(context, name < SCPI_REG_COUNT ? name : 0) == (scpi_reg_val_t)(VAL)) \
+__CPROVER_ensures(name == SCPI_REG_STB ==> (R(context, SCPI_REG_STB) & ~STB_SRQ) == ((scpi_reg_val_t)(VAL) & ~STB_SRQ)) \
+/* C12 latch: event' = event | (val & ~old condition) */ \
+__CPROVER_ensures(name == SCPI_REG_OPERC ==> R(context, SCPI_REG_OPER) == (OLD(R(context, SCPI_REG_OPER)) | ((scpi_reg_val_t)(VAL) & ~OLD(R(context, SCPI_REG_OPERC))))) \
+__CPROVER_ensures(name == SCPI_REG_QUESC ==> R(context, SCPI_REG_QUES) == (OLD(R(context, SCPI_REG_QUES)) | ((scpi_reg_val_t)(VAL) & ~OLD(R(context, SCPI_REG_QUESC))))) \
+/* frame over the whole register file */ \
+__CPROVER_ensures(name == SCPI_REG_SRE || UNCH(context, SCPI_REG_SRE)) \
+__CPROVER_ensures(name == SCPI_REG_ESR || UNCH(context, SCPI_REG_ESR)) \
+__CPROVER_ensures(name == SCPI_REG_ESE || UNCH(context, SCPI_REG_ESE)) \
+__CPROVER_ensures(name == SCPI_REG_OPER || name == SCPI_REG_OPERC || UNCH(context, SCPI_REG_OPER)) \
+__CPROVER_ensures(name == SCPI_REG_OPERE || UNCH(context, SCPI_REG_OPERE)) \
+__CPROVER_ensures(name == SCPI_REG_OPERC || UNCH(context, SCPI_REG_OPERC)) \
+__CPROVER_ensures(name == SCPI_REG_QUES || name == SCPI_REG_QUESC || UNCH(context, SCPI_REG_QUES)) \
+__CPROVER_ensures(name == SCPI_REG_QUESE || UNCH(context, SCPI_REG_QUESE)) \
+__CPROVER_ensures(name == SCPI_REG_QUESC || UNCH(context, SCPI_REG_QUESC)) \
+__CPROVER_ensures(name == SCPI_REG_STB || (R(context, SCPI_REG_STB) & ~STB_SUMMARY) == (OLD(R(context, SCPI_REG_STB)) & ~STB_SUMMARY)) \
+/* C12 service request */ \
+__CPROVER_ensures(((OLD(R(context, SCPI_REG_STB)) & STB_SRQ) == 0 && (R(context, SCPI_REG_STB) & STB_SRQ) != 0 && HAS_CONTROL(context)) \
+                  ==> (gh_srq_n == OLD(gh_srq_n) + 1 && gh_srq_val == R(context, SCPI_REG_STB))) \
+__CPROVER_ensures(gh_srq_n == OLD(gh_srq_n) || (gh_srq_n == OLD(gh_srq_n) + 1 && (gh_srq_val & STB_SRQ) != 0 && gh_srq_val == R(context, SCPI_REG_STB)))
 
 void SCPI_RegSet(scpi_t * context, scpi_reg_name_t name, scpi_reg_val_t val)
-__CPROVER_requires(CTX_REGS_PRE(context))
-__CPROVER_requires(WRITABLE(name))
-__CPROVER_requires(COH_REGS(context))
-__CPROVER_requires(gh_srq_n >= 0 && gh_srq_n < 1000)
-__CPROVER_assigns(__CPROVER_object_whole(context->registers), GHOST_SRQ)
-/* C11 */
-__CPROVER_ensures(COH_REGS(context))
-/* written register holds the value */
-__CPROVER_ensures(R(context, name) == val)
-/* C12 latch: event' = event | (val & ~old condition) */
-__CPROVER_ensures(name == SCPI_REG_OPERC ==> R(context, SCPI_REG_OPER) == (OLD(R(context, SCPI_REG_OPER)) | (val & ~OLD(R(context, SCPI_REG_OPERC)))))
-__CPROVER_ensures(name == SCPI_REG_QUESC ==> R(context, SCPI_REG_QUES) == (OLD(R(context, SCPI_REG_QUES)) | (val & ~OLD(R(context, SCPI_REG_QUESC)))))
-/* frame over the whole register file */
-__CPROVER_ensures(name == SCPI_REG_SRE || UNCH(context, SCPI_REG_SRE))
-__CPROVER_ensures(name == SCPI_REG_ESR || UNCH(context, SCPI_REG_ESR))
-__CPROVER_ensures(name == SCPI_REG_ESE || UNCH(context, SCPI_REG_ESE))
-__CPROVER_ensures(name == SCPI_REG_OPER || name == SCPI_REG_OPERC || UNCH(context, SCPI_REG_OPER))
-__CPROVER_ensures(name == SCPI_REG_OPERE || UNCH(context, SCPI_REG_OPERE))
-__CPROVER_ensures(name == SCPI_REG_OPERC || UNCH(context, SCPI_REG_OPERC))
-__CPROVER_ensures(name == SCPI_REG_QUES || name == SCPI_REG_QUESC || UNCH(context, SCPI_REG_QUES))
-__CPROVER_ensures(name == SCPI_REG_QUESE || UNCH(context, SCPI_REG_QUESE))
-__CPROVER_ensures(name == SCPI_REG_QUESC || UNCH(context, SCPI_REG_QUESC))
-__CPROVER_ensures((R(context, SCPI_REG_STB) & ~STB_SUMMARY) == (OLD(R(context, SCPI_REG_STB)) & ~STB_SUMMARY))
-/* C12 service request */
-__CPROVER_ensures(((OLD(R(context, SCPI_REG_STB)) & STB_SRQ) == 0 && (R(context, SCPI_REG_STB) & STB_SRQ) != 0
-                   && context->interface != NULL && context->interface->control != NULL)
-                  ==> (gh_srq_n == OLD(gh_srq_n) + 1 && gh_srq_val == R(context, SCPI_REG_STB)))
-__CPROVER_ensures(gh_srq_n == OLD(gh_srq_n) || (gh_srq_n == OLD(gh_srq_n) + 1 && (gh_srq_val & STB_SRQ) != 0 && gh_srq_val == R(context, SCPI_REG_STB)))
+REGSET_CLAUSES(context, name, val)
 ;
+void SCPI_RegSetBits(scpi_t * context, scpi_reg_name_t name, scpi_reg_val_t bits)
+__CPROVER_requires(name < SCPI_REG_COUNT)
+REGSET_CLAUSES(context, name, (OLD(R(context, name)) | bits))
+;
+void SCPI_RegClearBits(scpi_t * context, scpi_reg_name_t name, scpi_reg_val_t bits)
+__CPROVER_requires(name < SCPI_REG_COUNT)
+REGSET_CLAUSES(context, name, (OLD(R(context, name)) & ~bits))
+;
+scpi_reg_val_t SCPI_RegGet(scpi_t * context, scpi_reg_name_t name)
+__CPROVER_requires(context == NULL || __CPROVER_is_fresh(context, sizeof(*context)))
+__CPROVER_requires(ENUM_OK(name))
+__CPROVER_assigns()
+__CPROVER_ensures(RET == ((name < SCPI_REG_COUNT && context != NULL) ? R(context, name < SCPI_REG_COUNT ? name : 0) : 0))
+;
+#endif
